@@ -63,3 +63,31 @@ pub async fn settle() {
 	}
 	tokio::time::sleep(Duration::from_millis(30)).await;
 }
+
+/// A transport whose `send` hands the message to an auto-answering peer FIRST and only then (after a delay) returns:
+/// the reply can overtake the completion of the send future.
+pub struct EagerEchoSender(pub mpsc::UnboundedSender<Result<String, String>>);
+impl TransportSenderT for EagerEchoSender {
+	type Error = MockErr;
+	fn send(&mut self, msg: String) -> impl Future<Output = Result<(), Self::Error>> + Send {
+		let tx = self.0.clone();
+		async move {
+			let v: serde_json::Value = serde_json::from_str(&msg).unwrap_or(serde_json::Value::Null);
+			let answer = |req: &serde_json::Value| serde_json::json!({"jsonrpc":"2.0","id":req["id"],"result":format!("answer-to-{}", req["id"])});
+			let reply = match &v {
+				serde_json::Value::Array(reqs) => serde_json::Value::Array(reqs.iter().map(answer).collect()),
+				obj if obj.get("id").is_some() => answer(obj),
+				_ => serde_json::Value::Null,
+			};
+			if !reply.is_null() {
+				let _ = tx.send(Ok(reply.to_string()));
+			}
+			tokio::time::sleep(Duration::from_millis(40)).await;
+			Ok(())
+		}
+	}
+}
+pub fn eager_echo_client(builder: ClientBuilder) -> Client {
+	let (tx_in, rx_in) = mpsc::unbounded_channel();
+	builder.build_with_tokio(EagerEchoSender(tx_in), MockReceiver(rx_in))
+}
